@@ -405,6 +405,24 @@ func (c *CheckCtx) run() int {
 	return exit
 }
 
+// capWitness keeps evidence files small: witnesses of harnesses with thousands of input bytes are cut to 24 entries
+func capWitness(m map[string]string) map[string]string {
+	if len(m) <= 24 {
+		return m
+	}
+	keys := make([]string, 0, len(m))
+	for k := range m {
+		keys = append(keys, k)
+	}
+	sort.Strings(keys)
+	out := map[string]string{}
+	for _, k := range keys[:24] {
+		out[k] = m[k]
+	}
+	out["..."] = fmt.Sprintf("%d more inputs not shown", len(m)-24)
+	return out
+}
+
 func firstN(l []string, n int) []string {
 	if len(l) > n {
 		return l[:n]
@@ -465,7 +483,7 @@ func (c *CheckCtx) writeEvidence(nviol int) {
 			"harness": r.Name, "paths": r.Paths, "returned": r.Returned, "panic_paths": r.Panics, "infeasible": r.Infeasible,
 			"asserts_solver_discharged": r.AssertsDischarged, "asserts_folded_by_simplifier": r.AssertsFolded,
 			"asserts_violated": r.AssertsViolated, "queries": r.Queries, "solver_s": round3(r.SolverSec), "ssa_steps": r.Steps,
-			"reach_witness": r.ReachModel,
+			"reach_witness": capWitness(r.ReachModel),
 		})
 	}
 	for _, r := range c.Results {
